@@ -89,7 +89,7 @@ func newEnv(c *core.Ctx, st *core.Stats, mapper int) *env {
 	r.SetMaxCallStackSize(300)
 	goja.VerifSetFuel(r, opsFuel)
 	setMapper(r, mapper)
-	installNatives(r)
+	installNatives(r, core.NewRng(c.Seed*0x9e3779b97f4a7c15+uint64(int64(c.Index))))
 	if _, err := r.RunString(jsPrelude); err != nil {
 		panic(err)
 	}
@@ -514,7 +514,28 @@ func (e *env) genOp(r *core.Rng, root reflect.Value) opRec {
 			}
 			n := d.Len()
 			var js string
-			pickOp := r.Intn(12)
+			pickOp := r.Intn(15)
+			if pickOp >= 12 {
+				// shrink-then-regrow cycle: look at (and hold) high elements, truncate below them, grow beyond them again and look
+				// at the last element first; the coherence check that follows reads every index in random order
+				if !fixedRebind() && nestedContainer(et) {
+					pickOp = 1
+				} else {
+					k := 0
+					if n > 0 {
+						k = r.Intn(n)
+					}
+					h := holder()
+					js := "var a = " + l.js + ", n = a.length; if (n) { " + h + " = a[n - 1]; var lo = a[" + strconv.Itoa(k) + "]; } " +
+						core.Pick(r, []string{"a.length = " + strconv.Itoa(k), "a.splice(" + strconv.Itoa(k) + ")", "while (a.length > " + strconv.Itoa(k) + ") a.pop()"}) + "; "
+					for c, m := 0, n-k+r.Intn(2); c < m; c++ {
+						js += "a.push(" + lits(1) + "); "
+					}
+					js += "return typeof a[a.length - 1]"
+					delete(e.held, h)
+					return opRec{Kind: "regrow", JS: js, Path: l.js}
+				}
+			}
 			if !fixedRebind() && nestedContainer(et) {
 				// growing the slice re-allocates; wrappers of containers nested inside the elements are not re-bound
 				// (known finding C13-rebind-incomplete): only non-growing methods until that is fixed
